@@ -46,3 +46,54 @@ Definition load_check (E : pyenv) (c : list (str * str) * val * res val * val) :
   let '(classes, v, l, after) := c in
   let r := jc_load_m fixed E classes v in
   jres_eqb (lres_val r) l && val_sim (lres_arg r) after.
+
+(** ** C08: imports are compared as the set of top-level module names whose import was attempted
+    (that is what an import hook sees, whichever import API the code uses); modules that are
+    already in sys.modules (the synthetic ones of the class world, decimal) are invisible to the
+    hook and listed in [hidden].  Constructions are compared in order, for the [watched] classes. *)
+
+Definition first_comp (s : str) : str := match split_dot s with x :: _ => x | [] => "" end.
+
+Definition ev_imports (hidden : list str) (evs : list event) : list str :=
+  flat_map (fun e => match e with
+                     | EvImport t => let r := first_comp t in
+                                     if mem_str r hidden || String.eqb r "" then [] else [r]
+                     | _ => []
+                     end) evs.
+
+Definition ev_constructs (watched : list str) (evs : list event) : list str :=
+  flat_map (fun e => match e with
+                     | EvConstruct c => if mem_str c watched then [c] else []
+                     | _ => []
+                     end) evs.
+
+Definition set_eqb (a b : list str) : bool :=
+  forallb (fun x => mem_str x b) a && forallb (fun x => mem_str x a) b.
+
+(** (config, payload, observed outcome, import roots seen, constructions seen) *)
+Definition c08_load_check (E : pyenv) (hidden watched : list str)
+           (c : config * val * res val * list str * list str) : bool :=
+  let '(cfg, v, o, imps, ctors) := c in
+  let r := rpc_load fixed E cfg v in
+  jres_eqb (lres_val r) o &&
+  set_eqb (ev_imports hidden (lres_events r)) imps &&
+  list_eqb String.eqb (ev_constructs watched (lres_events r)) ctors.
+
+(** server: (config, version flag, parsed request, reply is the -32700 object, number of invocations,
+    import roots, constructions).  The JSON backend is the identity on the pre-parsed value and the
+    dispatcher behind the translator is opaque: the model only says whether it is reached. *)
+Definition c08_server_check (E : pyenv) (hidden watched : list str)
+           (c : config * bool * val * bool * Z * list str * list str) : bool :=
+  let '(cfg, v2, request, is32700, ncalls, imps, ctors) := c in
+  let '(reply, calls, evs) :=
+    marshaled_dispatch (fun _ => Ok request) unit (fun _ => (VNone, [tt])) fixed E cfg v2 "x" in
+  (match calls with
+   | [] => is32700 && (ncalls =? 0)
+   | _ => negb is32700
+   end) &&
+  set_eqb (ev_imports hidden evs) imps &&
+  list_eqb String.eqb (ev_constructs watched evs) ctors.
+
+(** dump gate: (config, params, observed) *)
+Definition c08_dump_check (E : pyenv) (c : config * val * res val) : bool :=
+  let '(cfg, v, o) := c in jres_eqb (rpc_dump_params std_hfun fixed E cfg v) o.
